@@ -92,7 +92,8 @@ def call_kwargs(e):
         test_tags=None if tags is None else set(tags),
         file_name=e.get("file"),
         file_bytes=e.get("bytes", "").encode("latin-1") if e.get("file") is not None else None,
-        mime_type=e.get("mime"), route_code=e.get("route"), timestamp=stamp(e.get("ts")))
+        mime_type=e.get("mime"), route_code=e.get("route"), timestamp=stamp(e.get("ts")),
+        eof=bool(e.get("eof", False)))       # the consumers take every chunk in arrival order, whatever the eof flags say
 
 
 # ---------------------------------------------------------------- the model
@@ -380,6 +381,8 @@ def random_event(rng):
         mime = TEXT if e["file"] == "reason" else rng.choice([None, TEXT, "image/png", "text/x-log"])
         if mime is not None:
             e["mime"] = mime
+        if rng.random() < 0.3:
+            e["eof"] = True
     if rng.random() < 0.6:
         e["ts"] = rng.randrange(1, 8)
     return e
@@ -387,6 +390,9 @@ def random_event(rng):
 
 def scenarios(focus, rng):
     score = (lambda evs: -sum(1 for e in evs if focus(e))) if focus else None
+    for flags in itertools.product((False, True), repeat=3):
+        yield {"events": [dict(id="a", file="f", bytes=b, eof=fl) for b, fl in zip(("first ", "second ", "third"), flags)]
+                         + [dict(id="a", status="success")], "runs": 1}
     for alphabet, lengths in ((ATOMS, (1, 2, 3)), (CORE, (4,))):
         for length in lengths:
             seqs = itertools.product(alphabet, repeat=length)
